@@ -22,6 +22,7 @@ import (
 	"github.com/prometheus/common/model"
 
 	"github.com/prometheus/alertmanager/alert"
+	apiv2 "github.com/prometheus/alertmanager/api/v2"
 
 	"verifharness/dconc"
 	"verifharness/vh"
@@ -43,6 +44,7 @@ type Upd struct {
 	UAtOff int64  `json:"uat_off"`
 	Starts int64  `json:"starts_off"`
 	Ends   int64  `json:"ends_off"`
+	GapUs  int    `json:"gap_us,omitempty"`    // ViaAPI: virtual microseconds slept before this POST
 	Pub    *Ver   `json:"published,omitempty"` // observed: what Put published for this update
 }
 
@@ -57,6 +59,8 @@ type Case struct {
 	Updates []Upd  `json:"updates"`
 	Sched   []int  `json:"sched"`
 	Note    string `json:"note,omitempty"`
+	// ViaAPI: the updates are POSTed through the real api/v2 handler, which stamps UpdatedAt (api_test.go)
+	ViaAPI bool `json:"via_api,omitempty"`
 	// Stat != nil: not a schedule but a run of a statistical engine (stat_test.go) with these parameters
 	Stat *StatParams `json:"stat,omitempty"`
 	// observed
@@ -113,8 +117,8 @@ var labelSets = []model.LabelSet{
 }
 
 const (
-	ms  = int64(time.Millisecond)
-	sec = int64(time.Second)
+	ms     = int64(time.Millisecond)
+	sec    = int64(time.Second)
 	minute = int64(time.Minute)
 )
 
@@ -228,6 +232,10 @@ func runCase(t *testing.T, c *Case) (viol []vh.Violation, tags map[string]int) {
 		defer rig.Close()
 		synctest.Wait()
 		t0 := time.Now().UnixNano()
+		var api *apiv2.API
+		if c.ViaAPI {
+			api = newAPI(t, rig.Alerts)
+		}
 
 		// route table: label set -> group ids (first-appearance numbering of group keys), from the real Route.Match
 		gidOf := map[string]int{}
@@ -271,20 +279,39 @@ func runCase(t *testing.T, c *Case) (viol []vh.Violation, tags map[string]int) {
 			}
 			// Recv: submit the next update; exactly one idle real worker receives it and parks at the yield point
 			u := &c.Updates[next]
-			a := &alert.Alert{Alert: model.Alert{Labels: labelSets[u.LS].Clone(), Annotations: model.LabelSet{"v": model.LabelValue(strconv.Itoa(next))},
-				StartsAt: time.Unix(0, t0+u.Starts), EndsAt: time.Unix(0, t0+u.Ends)}, UpdatedAt: time.Unix(0, t0+u.UAtOff), Timeout: u.Kind != "resolve"}
-			if err := rig.Alerts.Put(context.Background(), a); err != nil {
-				t.Fatalf("Put: %v", err)
-			}
-			pub, err := rig.Alerts.Get(a.Fingerprint())
-			if err != nil {
-				t.Fatalf("Get after Put: %v", err)
+			var pub *alert.Alert
+			if c.ViaAPI {
+				time.Sleep(time.Duration(u.GapUs) * time.Microsecond)
+				var ends time.Time
+				if u.Kind == "resolve" {
+					ends = time.Now()
+				}
+				if code := postAlert(api, labelSets[u.LS], next, ends); code != 200 {
+					t.Fatalf("POST /api/v2/alerts: status %d", code)
+				}
+				p, err := rig.Alerts.Get(labelSets[u.LS].Fingerprint())
+				if err != nil {
+					t.Fatalf("Get after POST: %v", err)
+				}
+				pub = p
+				tags["posted-via-api"]++
+			} else {
+				a := &alert.Alert{Alert: model.Alert{Labels: labelSets[u.LS].Clone(), Annotations: model.LabelSet{"v": model.LabelValue(strconv.Itoa(next))},
+					StartsAt: time.Unix(0, t0+u.Starts), EndsAt: time.Unix(0, t0+u.Ends)}, UpdatedAt: time.Unix(0, t0+u.UAtOff), Timeout: u.Kind != "resolve"}
+				if err := rig.Alerts.Put(context.Background(), a); err != nil {
+					t.Fatalf("Put: %v", err)
+				}
+				p, err := rig.Alerts.Get(a.Fingerprint())
+				if err != nil {
+					t.Fatalf("Get after Put: %v", err)
+				}
+				pub = p
+				if pub != a {
+					tags["put-merged"]++
+				}
 			}
 			v := verOf(pub, u.LS)
 			u.Pub = &v
-			if pub != a {
-				tags["put-merged"]++
-			}
 			next++
 			synctest.Wait()
 			got := ""
@@ -350,6 +377,11 @@ func oracle(c *Case, tags map[string]int) (viol []vh.Violation) {
 		if p, ok := last[u.LS]; ok {
 			if !(p.UAt < u.Pub.UAt) {
 				strict[u.LS] = false
+				if c.ViaAPI && u.GapUs > 0 {
+					// (a) the handler must establish the hypothesis of c14_final_is_latest
+					viol = append(viol, vh.Violation{Key: "api-stamps-not-strictly-increasing", What: fmt.Sprintf(
+						"two POSTs of label set %d %d us apart were stamped UpdatedAt %d ns and %d ns (not strictly increasing in POST order)", u.LS, u.GapUs, p.UAt, u.Pub.UAt), Case: c})
+				}
 			}
 		} else {
 			strict[u.LS] = true
@@ -362,7 +394,7 @@ func oracle(c *Case, tags map[string]int) (viol []vh.Violation) {
 		held[[2]int{ga.Gid, ga.V.LS}] = ga.V
 	}
 	for ls, l := range last {
-		if !strict[ls] {
+		if !strict[ls] && !c.ViaAPI { // handler-stamped updates are judged by POST order, ties included
 			tags["tie-not-judged"]++
 			continue
 		}
@@ -449,6 +481,26 @@ func genCases(env vh.Env, r *vh.Rand) []Case {
 			}
 		}
 	}
+	// updates stamped by the real POST handler, 100-900 virtual microseconds apart: exhaustive words for 2 workers x
+	// 2 updates, plus random ones
+	apiSeqs := 4
+	if env.Tier == "thorough" {
+		apiSeqs = 16
+	}
+	for s := 0; s < apiSeqs; s++ {
+		rr := r.Fork()
+		n := 2 + s%2
+		ups := genUpdates(rr, n, 0, 1, s%4 == 3, false)
+		for i := range ups {
+			ups[i].GapUs = 100 * rr.Range(1, 9)
+			if n == 3 {
+				ups[i].GapUs = 100 * rr.Range(1, 4)
+			}
+		}
+		for _, w := range words(2, 2*n) {
+			cases = append(cases, Case{W: 2, Config: s % len(configs), Updates: cloneUpds(ups), Sched: completeSched(2, n, w), ViaAPI: true, Note: "api-exhaustive"})
+		}
+	}
 	// random: 3-4 workers, 4-8 updates, two interleaved label sets, some with UpdatedAt ties
 	nr := env.N(250, 12)
 	maxW := realWorkers()
@@ -460,7 +512,14 @@ func genCases(env vh.Env, r *vh.Rand) []Case {
 		n := r.Range(3, 8)
 		ls0 := r.Intn(3)
 		ls1 := (ls0 + 1 + r.Intn(2)) % 3
-		ups := genUpdates(r.Fork(), n, ls0, ls1, r.Chance(2, 3), r.Chance(1, 6))
+		ties := r.Chance(1, 6)
+		ups := genUpdates(r.Fork(), n, ls0, ls1, r.Chance(2, 3), ties)
+		via := !ties && r.Chance(1, 4)
+		if via {
+			for j := range ups {
+				ups[j].GapUs = 100 * r.Range(1, 9)
+			}
+		}
 		word := make([]int, r.Range(n, 3*n))
 		for j := range word {
 			word[j] = r.Intn(w)
@@ -468,7 +527,7 @@ func genCases(env vh.Env, r *vh.Rand) []Case {
 				word[j] = w + r.Intn(2) // a worker id that does not exist: no-op in model and harness
 			}
 		}
-		cases = append(cases, Case{W: w, Config: r.Intn(len(configs)), Updates: ups, Sched: completeSched(w, n, word), Note: "random"})
+		cases = append(cases, Case{W: w, Config: r.Intn(len(configs)), Updates: ups, Sched: completeSched(w, n, word), ViaAPI: via, Note: "random"})
 	}
 	return cases
 }
@@ -544,6 +603,7 @@ func statPlan(env vh.Env) []StatParams {
 	}
 	return []StatParams{
 		{Engine: "pipeline", Rounds: env.N(3000, 6), Submitters: 4, PerRound: 8, BudgetMs: 8000 * f, Note: replayNote},
+		{Engine: "pipeline", Rounds: env.N(800, 6), Submitters: 4, PerRound: 8, ViaAPI: true, BudgetMs: 6000 * f, Note: replayNote},
 		{Engine: "direct", Rounds: env.N(400000, 6), Racers: 2, BudgetMs: 4000 * f, Note: replayNote},
 		{Engine: "direct", Rounds: env.N(300000, 6), Racers: 3, BudgetMs: 4000 * f, Note: replayNote},
 	}
@@ -552,11 +612,18 @@ func statPlan(env vh.Env) []StatParams {
 func judgeStat(t *testing.T, run *vh.Run, p StatParams) {
 	r := runStat(t, p)
 	name := fmt.Sprintf("statistical_%s_%d", p.Engine, p.Racers)
+	if p.ViaAPI {
+		name += "_via_api"
+	}
 	run.Rep.Distribution[name] = map[string]any{"params": p, "rounds_run": r.Rounds, "updates": r.Updates, "groups_holding_older_version": r.Reordered,
-		"lost": r.Lost, "millis": r.Millis, "gomaxprocs": runtime.GOMAXPROCS(0), "ingestion_workers": realWorkers()}
+		"lost": r.Lost, "stamp_ties": r.StampTies, "millis": r.Millis, "gomaxprocs": runtime.GOMAXPROCS(0), "ingestion_workers": realWorkers()}
 	if r.Reordered > 0 {
 		run.Violate("older-update-overwrites-newer", fmt.Sprintf("%s engine (real goroutines, no hooks): %d stored versions older than the last submitted one after %d rounds / %d updates; %s",
 			p.Engine, r.Reordered, r.Rounds, r.Updates, r.First), Case{Stat: &p, Note: replayNote})
+	}
+	if r.StampTies > 0 {
+		run.Violate("api-stamps-not-strictly-increasing", fmt.Sprintf("%s engine, updates POSTed back-to-back through the real handler: %d POSTs got an UpdatedAt not later than the previous POST of the same label set; %s",
+			p.Engine, r.StampTies, r.First), Case{Stat: &p, Note: replayNote})
 	}
 	if r.Lost > 0 {
 		run.Violate("update-lost", fmt.Sprintf("%s engine: %d label sets missing from their group", p.Engine, r.Lost), Case{Stat: &p, Note: replayNote})
